@@ -21,7 +21,7 @@ type Param struct {
 type Sig struct {
 	Params  []Param
 	Results []*Type
-	Mode    string // named | unnamed | blank | hostile
+	Mode    string // named | unnamed | blank | hostile | minted
 }
 
 var hostileNames = []string{"f", "g", "err", "param_0", "v0", "in", "out", "this", "that", "list", "param_1", "innerParam_0", "h", "m", "res0", "ok", "success"}
@@ -44,6 +44,12 @@ func NameParams(t *rapid.T, n int, mode string) []string {
 				names[i] = string(rune('a' + i))
 			}
 		}
+	case "minted":
+		// only names of the shape the generator itself mints for parameters, at other positions than it
+		// would use them, and none of the names (f, err, _) that make it rename everything
+		pool := []string{"param_0", "param_1", "param_2", "param_3", "param_4", "param_5"}
+		perm := rapid.Permutation(pool).Draw(t, "minted")
+		copy(names, perm)
 	case "hostile":
 		used := map[string]bool{}
 		for i := range names {
